@@ -859,9 +859,19 @@ class Observer:
             text2 = f"<{type(e).__name__}>"
         if text2 != text:
             self.cnt("second-print-differs")
-            self.record("violation", f"reparse:second-print-differs:{op}", f"printing, reading back and printing again changes the text (after {op})",
-                        att, hist, text=text, text2=text2, module=src)
-            return
+            import re as _re
+            def nz(t):
+                # unary minus on the literal 0 only: the previous non-blank character opens an operand position
+                return _re.sub(r"(^|[(\[,:=+\-*/%<>]\s*)-\s*0(?![\w.])", lambda m: m.group(1) + "0", t)
+            if nz(text) == nz(text2):
+                # `-0` (unary minus applied to the literal 0, left behind by scheduling arithmetic such as `0 - 0 + n`) is read
+                # back as the literal 0: same value, different text — a recorded finding, keyed by the situation, not the op
+                self.record("violation", "reparse:second-print-differs:negated-zero-literal",
+                            f"`-0` is printed for USub(Const 0) and read back as `0` (after {op})", att, hist, text=text, text2=text2, module=src)
+            else:
+                self.record("violation", f"reparse:second-print-differs:{op}", f"printing, reading back and printing again changes the text (after {op})",
+                            att, hist, text=text, text2=text2, module=src)
+                return
         # ---- 3. same behaviour
         try:
             pj, cfgs = export_ir.export(ir)
